@@ -52,7 +52,11 @@ type AuthorizerOption func(w *authorizer)
 
 func WithWorldOptions(opts ...datalog.WorldOption) AuthorizerOption {
 	return func(a *authorizer) {
-		a.baseWorld = datalog.NewWorld(opts...)
+		// applied to the existing base world: limits given by an earlier
+		// WithWorldOptions are kept
+		for _, opt := range opts {
+			opt(a.baseWorld)
+		}
 	}
 }
 
